@@ -1487,8 +1487,12 @@ get_getter(CPPType *expr_type, string expression,
   ostringstream desc;
   desc << "getter for ";
   if (element != nullptr) {
+    // Describe the element without its default value, but leave the parsed
+    // declaration as it was: is_default_constructible() looks at it later.
+    CPPExpression *initializer = element->_initializer;
     element->_initializer = nullptr;
     element->output(desc, 0, &parser, false);
+    element->_initializer = initializer;
     desc << ";";
   } else {
     desc << expression;
@@ -1560,8 +1564,12 @@ get_setter(CPPType *expr_type, string expression,
   ostringstream desc;
   desc << "setter for ";
   if (element != nullptr) {
+    // Describe the element without its default value, but leave the parsed
+    // declaration as it was: is_default_constructible() looks at it later.
+    CPPExpression *initializer = element->_initializer;
     element->_initializer = nullptr;
     element->output(desc, 0, &parser, false);
+    element->_initializer = initializer;
     desc << ";";
   } else {
     desc << expression;
